@@ -71,13 +71,13 @@ bool pgm_is_default(const PGM &a) {
 }
 
 struct DynOp {
-    enum Kind { INS, ERASE, INS_RUN, ERASE_RUN, FIND, LB, SCAN, ITER_FROM, RANGE, SIZE_EMPTY } kind;
+    enum Kind { INS, ERASE, INS_RUN, ERASE_RUN, FIND, LB, SCAN, ITER_FROM, RANGE, SIZE_EMPTY, ERASE_ALL } kind;
     size_t a = 0, b = 0, c = 0; // universe index / count / stride or second index
     int da = 0, db = 0;         // -1/0/+1 offsets for query keys
 };
 
 inline const char *dyn_op_name(DynOp::Kind k) {
-    static const char *n[] = {"INS", "ERASE", "INS_RUN", "ERASE_RUN", "FIND", "LB", "SCAN", "ITER_FROM", "RANGE", "SIZE_EMPTY"};
+    static const char *n[] = {"INS", "ERASE", "INS_RUN", "ERASE_RUN", "FIND", "LB", "SCAN", "ITER_FROM", "RANGE", "SIZE_EMPTY", "ERASE_ALL"};
     return n[k];
 }
 
@@ -135,8 +135,8 @@ CaseResult run_dynamic(const RunCtx &ctx, TapeReader &t, unsigned size_hint) {
     size_t n_ops = size_hint < 20 ? 4 + t.below(20) : size_hint < 60 ? 10 + t.below(120) : 20 + t.below(400);
     std::vector<DynOp> ops;
     ops.reserve(n_ops);
-    // weights: INS ERASE INS_RUN ERASE_RUN FIND LB SCAN ITER_FROM RANGE SIZE_EMPTY
-    static const unsigned w05[] = {10, 6, 2, 1, 4, 4, 0, 0, 0, 0}, w06[] = {10, 6, 2, 1, 0, 0, 2, 3, 4, 2}, w15[] = {10, 6, 3, 2, 0, 0, 0, 0, 0, 0};
+    // weights: INS ERASE INS_RUN ERASE_RUN FIND LB SCAN ITER_FROM RANGE SIZE_EMPTY ERASE_ALL (erase every live key: the container drains)
+    static const unsigned w05[] = {20, 12, 4, 2, 8, 8, 0, 0, 0, 0, 1}, w06[] = {20, 12, 4, 2, 0, 0, 4, 6, 8, 4, 1}, w15[] = {20, 12, 6, 4, 0, 0, 0, 0, 0, 0, 2};
     size_t recent[8] = {0, 0, 0, 0, 0, 0, 0, 0};
     size_t rp = 0;
     for (size_t i = 0; i < n_ops; ++i) {
@@ -376,8 +376,7 @@ CaseResult run_dynamic(const RunCtx &ctx, TapeReader &t, unsigned size_hint) {
         ++n_updates;
         return true;
     };
-    auto do_erase = [&](size_t idx) -> bool {
-        K k = uni[idx % U];
+    auto do_erase_key = [&](K k) -> bool {
         if (model.count(k)) {
             const auto &buf = Acc::levels(*dyn)[0];
             bool in_buffer = std::binary_search(buf.begin(), buf.end(), k, [](const auto &a, const auto &b) { return K(a) < K(b); });
@@ -393,6 +392,7 @@ CaseResult run_dynamic(const RunCtx &ctx, TapeReader &t, unsigned size_hint) {
         ++n_updates;
         return true;
     };
+    auto do_erase = [&](size_t idx) -> bool { return do_erase_key(uni[idx % U]); };
     auto after_update = [&](size_t idx, bool light) -> bool {
         if (c15 && !mem) return invariants(false);
         if (light && (n_updates & 15)) { // inside long runs: the touched key always, its neighbours every 16th update
@@ -426,6 +426,20 @@ CaseResult run_dynamic(const RunCtx &ctx, TapeReader &t, unsigned size_hint) {
                     for (int s = 0; s < 24 && res.ok; ++s) around(spr.below(U));
                 }
                 break;
+            case DynOp::ERASE_ALL: {
+                std::vector<K> live;
+                for (auto &kv: model) live.push_back(kv.first);
+                if (op.a & 1) std::reverse(live.begin(), live.end());
+                for (const K &k: live) {
+                    if (!res.ok) break;
+                    if (!do_erase_key(k)) break;
+                    if (c15 && !mem) invariants(false);
+                    else if ((n_updates & 15) == 0) point_checks(k);
+                }
+                if (res.ok && !c15) full_scan();
+                res.label("erase_all");
+                break;
+            }
             case DynOp::FIND:
             case DynOp::LB: {
                 K q;
